@@ -192,10 +192,121 @@ func NormErr(s string) string {
 	return s
 }
 
+var (
+	ecQuoted = regexp.MustCompile("\"[^\"]*\"|'[^']*'|`[^`]*`")
+	ecBraces = regexp.MustCompile(`\{[^{}]*\}|\[[^\[\]]*\]`)
+	ecNum    = regexp.MustCompile(`(^|[^A-Za-z0-9_])-?[0-9][0-9.eE+-]*`)
+	ecSplit  = regexp.MustCompile(`[:;,]\s+`)
+	ecTok    = regexp.MustCompile(`[^\s]+`)
+	ecUnder  = regexp.MustCompile(`(_\s*)+`)
+)
+
+// ErrClass reduces an error text to a root-cause class: quoted strings, numbers,
+// braces and identifiers (anything with upper-case letters, '_', '.', '/', '*')
+// are dropped, repeated clauses are collapsed and the last three clauses kept.
+func ErrClass(s string) string {
+	s = ecQuoted.ReplaceAllString(s, "_")
+	for i := 0; i < 4; i++ {
+		s = ecBraces.ReplaceAllString(s, "_")
+	}
+	s = ecNum.ReplaceAllString(s, "${1}_")
+	var segs []string
+	seen := map[string]bool{}
+	for _, seg := range ecSplit.Split(s, -1) {
+		seg = ecTok.ReplaceAllStringFunc(seg, func(t string) string {
+			if strings.ContainsAny(t, "_./*<>=\\") || (strings.Contains(t, "-") && t != "non-empty" && t != "leaf-list") {
+				return "_"
+			}
+			for _, c := range t {
+				if (c >= 'A' && c <= 'Z') || (c >= '0' && c <= '9') {
+					return "_"
+				}
+			}
+			if t == "true" || t == "false" {
+				return "_"
+			}
+			return t
+		})
+		seg = strings.TrimSpace(ecUnder.ReplaceAllString(seg, "_ "))
+		if seg == "" || seg == "_" || seen[seg] {
+			continue
+		}
+		seen[seg] = true
+		segs = append(segs, seg)
+	}
+	if len(segs) > 3 {
+		segs = segs[len(segs)-3:]
+	}
+	out := strings.Join(segs, "|")
+	if len(out) > 160 {
+		out = out[len(out)-160:]
+	}
+	return out
+}
+
+var genericClauses = map[string]bool{
+	"cannot extract keys": true, "this is not supported": true, "rpc error": true,
+}
+
+// ErrClasses splits an error text into root-cause classes, one per distinct
+// normalised clause that is not a generic wrapper (wrappers end in a dropped
+// identifier or are listed in genericClauses).  Several independent errors
+// joined into one message thus give several stable classes instead of one
+// combination-dependent class.
+func ErrClasses(s string) []string {
+	whole := ErrClass(s)
+	s = ecQuoted.ReplaceAllString(s, "_")
+	for i := 0; i < 4; i++ {
+		s = ecBraces.ReplaceAllString(s, "_")
+	}
+	s = ecNum.ReplaceAllString(s, "${1}_")
+	seen := map[string]bool{}
+	var out []string
+	for _, seg := range ecSplit.Split(s, -1) {
+		seg = ecTok.ReplaceAllStringFunc(seg, func(t string) string {
+			if strings.ContainsAny(t, "_./*<>=\\") || (strings.Contains(t, "-") && t != "non-empty" && t != "leaf-list") {
+				return "_"
+			}
+			for _, c := range t {
+				if (c >= 'A' && c <= 'Z') || (c >= '0' && c <= '9') {
+					return "_"
+				}
+			}
+			if t == "true" || t == "false" {
+				return "_"
+			}
+			return t
+		})
+		seg = strings.TrimSpace(ecUnder.ReplaceAllString(seg, "_ "))
+		if seg == "" || seg == "_" || seen[seg] || genericClauses[seg] {
+			continue
+		}
+		seen[seg] = true
+		if strings.HasSuffix(seg, "_") || strings.HasPrefix(seg, "code _") || len(strings.Fields(seg)) < 3 {
+			continue
+		}
+		out = append(out, seg)
+	}
+	if len(out) == 0 {
+		return []string{whole}
+	}
+	return out
+}
+
+// ViolateErr records one violation per root-cause class of an error.
+func (r *Run) ViolateErr(clause string, err error, witness interface{}) {
+	for _, c := range ErrClasses(err.Error()) {
+		r.Violate(clause, c, err.Error(), witness)
+	}
+}
+
 // Violate records a violation.  features names the root-cause locus (types,
 // node kinds, entry point); the signature is <prop>/<clause>/<features>.
 func (r *Run) Violate(clause, features, detail string, witness interface{}) {
 	sig := r.Prop + "/" + clause + "/" + features
+	if verbose {
+		fmt.Printf("  V: %s :: %s\n", sig, firstLine(detail))
+	}
 	r.mu.Lock()
 	defer r.mu.Unlock()
 	if v, ok := r.viol[sig]; ok {
@@ -383,3 +494,5 @@ func Clip(s string, n int) string {
 	}
 	return s
 }
+
+var verbose = os.Getenv("VERIF_VERBOSE") != ""
